@@ -31,6 +31,34 @@ CHECKS = {
    note=E1_NOTE),
 }
 
+
+E3_NOTE = ("Trusted: the harness' in-memory / raw-TCP targets and its reading of the sidecar's HTTP API; the sidecar is the real "
+           "TargetsManager + Injector + Proxy + Service + ConfigManager + scrape.Manager wired as cmd/kvass/sidecar.go wires them. "
+           "Held = held on the executions observed.")
+
+CHECKS.update({
+ "C09": dict(engine="E3 sidecar", level="fault_enumeration", ref="DESIGN.md §5 C09",
+   technique="fault injection + state monitor: store write cut after every byte offset via RLIMIT_FSIZE in a child process, SIGKILL of the real binary, fresh Load() compared with previous/new assignment",
+   text="The fault space (pair of consecutive assignments x byte offset at which the store write stops) is finite and swept: thorough enumerates every offset for every ordered pair of 8 assignment shapes, quick every offset for four pairs and strided for the rest, plus the old-file-name fall-back path and SIGKILLs of the real `kvass sidecar` binary mid-update followed by a restart of the binary. Oracle: the next start succeeds and resumes exactly the previous or the new assignment (deep JSON equality incl. idle-since), the new one if the update was acknowledged.",
+   note=E3_NOTE + " A write cut by RLIMIT_FSIZE is taken to leave the disk as a kill / full disk at that byte would; fsync / power-loss semantics of the file system are out of scope."),
+ "C10": dict(engine="E3 sidecar", level="exploration", ref="DESIGN.md §5 C10",
+   technique="runtime monitoring against an executable reference model of (status map, idle-since) after every operation",
+   text="Random operation sequences (updates with adds/removals/state flips/repeats/empty sets/job moves, scrapes through the real proxy, restarts on the same store) on one real sidecar; after every operation the sidecar's /targets/status/ and /runtimeinfo/ answers are compared with a small reference model: key set, state, retained statistics and health, fresh entries, counter restart exactly on normal->in_transfer, idle-since set once, stable, cleared on assignment.",
+   note=E3_NOTE),
+ "C12": dict(engine="E3 sidecar", level="exploration", ref="DESIGN.md §5 C12",
+   technique="runtime monitoring: byte-equality oracle at the Prometheus side of the real proxy over payload shapes x chunkings x encodings x short writes; race detector on the forwarding path",
+   text="Every payload shape (empty ... 8 MiB, parser-rejected and binary lines, a 256 KiB-1 line, a newline on the 64 KiB block boundary) x gzip/identity x every 2-way split of the wire bytes (small bodies) or random read sizes (large) x Prometheus side as instrumented writer with short writes or as a real HTTP hop x assigned/unassigned; the bytes Prometheus receives must equal the target's decompressed body, with its Content-Type and status 200. Runs from the -race binary.",
+   note=E3_NOTE),
+ "C13": dict(engine="E3 sidecar", level="fault_enumeration", ref="DESIGN.md §5 C13",
+   technique="fault injection at every stage and every body offset behind the real proxy; outcome monitor on the Prometheus side (status / aborted response) and on /targets/status/",
+   text="One fault per case, enumerated: connect error, five non-200 codes, stalls beyond the timeout before headers and mid body, administrative stop, body breaking off at EVERY wire offset (identity and gzip, three error kinds incl. 'connection reset by peer'), multi-block bodies at block boundaries, and real TCP faults (short Content-Length, cut chunked body, RST), each seen through an instrumented writer and through a real net/http hop. Oracle: the Prometheus side sees non-200 or an aborted response, never a complete 200; health down with an error; counter +1; then recovery to up.",
+   note=E3_NOTE + " A break after the whole content was delivered is also required to fail on the Prometheus side (Prometheus itself would fail such a scrape)."),
+ "C14": dict(engine="E3 sidecar", level="exploration", ref="DESIGN.md §5 C14",
+   technique="runtime monitoring against an arithmetic reference: payloads with per-sample relabel outcome known by construction; race detector on the statistics lock",
+   text="Random scrape/assignment sequences with generated payloads (duplicates, label values needing escapes, 0-6000 samples) under six metric-relabel programs whose keep/drop outcome per sample is evaluated by plain string predicates in the harness; after every operation per-scrape totals, per-metric counts and their sums, the sliding integer mean of the last <=3 successful scrapes, total-series, /runtimeinfo/ sums and the head-series floor, and /samples/ aggregation are compared with the reference. Runs from the -race binary.",
+   note=E3_NOTE),
+})
+
 NOT_YET = {
 }
 
@@ -79,6 +107,8 @@ def main():
         "engines": [
             {"name": "E1 stub-cycle", "path": "harness/internal/e1", "serves_properties": ["C01", "C04", "C05", "C07", "C08", "C19"],
              "kind_free_text": "real coordinator + real shard objects, scripted sidecar answers, recorded request log, offline oracles"},
+            {"name": "E3 sidecar", "path": "harness/internal/e3", "serves_properties": ["C09", "C10", "C12", "C13", "C14"],
+             "kind_free_text": "one real sidecar driven through its HTTP API and proxy; in-memory and raw-TCP targets; RLIMIT_FSIZE crash child; real binary under SIGKILL"},
         ],
         "checks": checks,
         "not_applicable": na,
